@@ -315,7 +315,9 @@ fn components(prop: &str) -> serde_json::Value {
         "simulated": ["TcpListener/TcpStream (in-memory, fault-injecting)", "clock (clock_gettime interposed: logical time that jumps ahead by up to two minutes; knob)", "disk calls of the code under test (open/read/pread/lseek/statx/chdir interposed: scheduling points and one injected fault per run - early end of file, EIO, EACCES, EMFILE, ENOENT ...)", "process environment (reads and writes are scheduling points)", "clients (harness tasks, incl. a revalidating client)", "the owner of the served directory (removes / replaces the tree between phases in a share of the C13 runs)"],
         "modelled": ["Mutex, RwLock, Condvar, atomics, mpsc, thread scheduling, thread-locals anywhere in the crate: shuttle 0.9.3 (every std::sync / std::thread / std::env / thread_local! path of /repo/src is routed through src/verif/mod.rs by tools/mirror.sh)"],
         "stub": ["Application wrapper returning Err on scripted connections (delegates to the real App otherwise)", "legacy node: harness accept loop around the real Server::process_request"],
-        "not_run": ["main, Server::setup, bootstrap (start-up; property C12 is not applicable)"]
+        "real_before_the_world_starts": ["entry_point::config_file::override_environment_variables_from_config and CommandLineArgument::_parse on a generated rws.config.toml and command line (Scenario.boot; a share of the C05 / C09 / C11 runs)"],
+        "platform_knobs": ["wall-clock epoch per run (calendar corners)", "simulated sleep and processor count", "file modes, hard links, calendar modification times", "short docroot path (chroot)", "server user that owns no file (uid 65534)", "client addresses with shared source ports / IPv6", "failing standard output (C13)", "dup failure", "owner touching a file inside a request", "threads held back before synchronisation operations"],
+        "not_run": ["main, Server::setup (start-up; property C12 is not applicable)"]
     })
 }
 
